@@ -7,6 +7,7 @@ THEOREMS = ["Lou.C10.optargs_arrays", "Lou.C10.optargs_typeform", "Lou.C10.optar
             "Lou.CurBlind.translate_cursor_blind", "Lou.CurBlind.modelEngine_blind", "Lou.CurBlind.model_optargs",
             "Lou.ModelEngine.callFwd_eq",
             "Lou.CurBlindC.translateC_cursor_blind", "Lou.CurBlindC.engineFor_blind", "Lou.CurBlindC.whole_call_optargs",
+            "Lou.C10Back.back_optargs_arrays", "Lou.C10Back.back_optargs_cursor", "Lou.CurBlindB.translate_cursor_blind", "Lou.CurBlindB.translateC_cursor_blind", "Lou.CurBlindB.engineForBack_blind", "Lou.CurBlindB.whole_call_back_optargs",
 ]
 
 CLAIM = dict(
